@@ -256,17 +256,17 @@ pub fn parse_subs() -> Vec<Sub> {
     vec![
         Sub {
             name: "replies",
-            cases: |t| t.pick(100_000, 2_000_000),
+            cases: |t| t.pick(300_000, 4_000_000),
             run: |ctx| run_proptest(ctx, "replies", strategy(), check),
             replay: |v| replay_case::<Case>(v, check),
             min_class: &[("malformed-entry-between-good-ones", 0.3), ("failure-reason", 0.15), ("no-peers", 0.01)],
         },
         Sub {
             name: "totality",
-            cases: |t| t.pick(50_000, 1_000_000),
+            cases: |t| t.pick(150_000, 2_000_000),
             run: |ctx| run_proptest(ctx, "totality", tot_strategy(), check_tot),
             replay: |v| replay_case::<TotCase>(v, check_tot),
-            min_class: &[("accepted", 0.05), ("rejected", 0.3)],
+            min_class: &[("accepted", 0.0379), ("rejected", 0.3)],
         },
     ]
 }
